@@ -855,7 +855,9 @@ func c16UDPStream(n int) func() {
 		fs := c16Frames()
 		var want []string
 		sock, ep := dialUDP()
-		ep.OnDrop = func(d []byte) { mc.Log(Note("the socket's receive queue had no room for a datagram of " + fmt.Sprint(len(d)) + " octets")) }
+		ep.OnDrop = func(d []byte) {
+			mc.Log(Note("the socket's receive queue had no room for a datagram of " + fmt.Sprint(len(d)) + " octets"))
+		}
 		done := mc.NewChan[int](1, "c16.done")
 		stall := []mc.Duration{0, 2500 * ms}[mc.Choose(2, mc.Free)]
 		c16ConsumerStall(sock.Inbound(), done, stall)
